@@ -1,6 +1,5 @@
 SPECIFICATION MCSpec
-CONSTANTS MaxDepth = 2
-          SmallN = 3
+CONSTANTS SmallN = 2
           MaxLen = 2
-INVARIANTS ReadBack ExactConsumption AllConsumed ReEncodeIdentical NoStuck TagFirst SelfDelimiting Truncated UnknownTag Complete
+INVARIANTS ReadBack ExactConsumption AllConsumed WireOK ReEncodeIdentical NoStuck TagFirst SelfDelimiting Truncated Complete RTisComposition
 CHECK_DEADLOCK FALSE
